@@ -38,6 +38,8 @@ def step_of(state_text, label):
         return {"a": "cancel", "c": int(args[0]), "r": int(args[1]), "k": 0}
     if name == "Finish":
         return {"a": "finish", "c": int(args[0]), "r": int(args[1]), "k": int(args[2])}
+    if name == "GFinish":
+        return {"a": "gfinish", "c": int(args[0]), "r": int(args[1]), "k": int(args[2])}
     if name == "GStop":
         return {"a": "gstop", "c": 0, "r": 0, "k": 0}
     if name == "HStop":
@@ -70,7 +72,7 @@ def scope(ctx, binary, mccfg, tracecfg, nc, nr, limit, cap, tag):
         opath = os.path.join(ctx.run, "trace-%s-%d.ndjson" % (tag, i))
         write_ndjson(bpath, shards[i])
         ctx.driver(binary, "TestVerifC25Replay", {"VERIF_BEHAVIOURS": bpath, "VERIF_OUT": opath,
-                                                   "VERIF_NC": nc, "VERIF_NR": nr, "VERIF_LIMIT": limit}, timeout=1500)
+                                                   "VERIF_NC": nc, "VERIF_NR": nr, "VERIF_LIMIT": limit}, timeout=ctx.pick(420, 1500))
         return opath
 
     with concurrent.futures.ThreadPoolExecutor(len(shards)) as ex:
